@@ -2,5 +2,5 @@ From V Require Import model.Base model.ReqRes.
 Require Extraction.
 Require Import ExtrOcamlBasic.
 Extraction Language OCaml.
-Extraction "../ocaml/c11/model.ml" mkCfg init step digest_p digest_a client_peers server_peers act_foreign last_recv_foreign step_send_okb cons_okb
+Extraction "../ocaml/c11/model.ml" mkCfg init step digest_p digest_a client_peers server_peers act_foreign last_recv_foreign step_send_okb cons_okb stepx client_send_peers
   ospec0 o_recv o_act_connected N.of_nat N.to_nat.
